@@ -179,7 +179,10 @@ class RunModel(ReadModel):
         self.l2s = 1 << self.l2_bits
         self.L1 = z3.Function("L1", I, I)
         self.E2 = z3.Function("L2", I, I, I)  # (l2 table offset, index) -> entry
+        # number of entries of the L1 table in use: header.l1_size for the active image (loader contract QCow2.l1_table/loads_the_specified_table),
+        # the snapshot's own l1_size for a snapshot view (QCow2Snapshot.l1_table) -- the read path must go by the table it actually holds
         self.L1N = self.int_field("self.header.l1_size", 0, U32, None)
+        self.lens["self.l1_table"] = IntV(self.L1N)
         self.obj_field("self.header")
         self.fields["self.l1_table"] = ObjV("self.l1_table")
         self.items["self.l1_table"] = self.l1_get
@@ -871,6 +874,7 @@ class ExtRunModel(ReadModel, ExtTables):
         self.Both2 = z3.Function("BothAllocAndZero", I, I, B)
         self.Any2 = z3.Function("AnyAllocBit", I, I, B)
         self.L1N = self.int_field("self.header.l1_size", 0, U32, None)
+        self.lens["self.l1_table"] = IntV(self.L1N)  # see RunModel: the length of the L1 table the object holds
         self.obj_field("self.header")
         self.fields["self.l1_table"] = ObjV("self.l1_table")
         self.items["self.l1_table"] = self.l1_get
